@@ -85,16 +85,30 @@ def replay_job(job: dict) -> dict:
         mod = gp.load(job["src"])
         res["o"] = _check(mod.main_o)
         res["d"] = {name: _check(getattr(mod, f"main_d_{name}")) for name in job["leaves"]}
+        # nested calls h(f(args)): direct compositions w<k>(<leaf>(args)) the spec asks about
+        res["c"] = {f"{k}_{leaf}": _check(getattr(mod, f"main_c_{k}_{leaf}")) for k, leaf in job.get("compose", [])}
         if res["o"]["status"] == "ok":
             res["o_run"] = _compile_run(mod, "main_o", job["args"], job["runnable"])
-            # the function the code linked, and the one the spec picked, called directly
-            want = set(res["o_run"].get("callees", []))
-            if job["pick"]:
-                want.add(job["pick"])
             res["d_run"] = {}
-            for name in sorted(want):
-                if res["d"][name]["status"] == "ok":
-                    res["d_run"][name] = _compile_run(mod, f"main_d_{name}", job["args"], job["runnable"])
+            if job.get("outer"):
+                cal = res["o_run"].get("callees", [])
+                ws, vs = [c for c in cal if c.startswith("w")], [c for c in cal if c.startswith("v")]
+                want = set()
+                if job["pick"]:
+                    want.add(job["pick"])  # "<k>_<leaf>"
+                if len(ws) == 1 and len(vs) == 1:
+                    want.add(f"{ws[0][1:]}_{vs[0]}")
+                for name in sorted(want):
+                    if hasattr(mod, f"main_c_{name}") and _check(getattr(mod, f"main_c_{name}"))["status"] == "ok":
+                        res["d_run"][name] = _compile_run(mod, f"main_c_{name}", job["args"], job["runnable"])
+            else:
+                # the function the code linked, and the one the spec picked, called directly
+                want = set(res["o_run"].get("callees", []))
+                if job["pick"]:
+                    want.add(job["pick"])
+                for name in sorted(want):
+                    if res["d"][name]["status"] == "ok":
+                        res["d_run"][name] = _compile_run(mod, f"main_d_{name}", job["args"], job["runnable"])
     except BaseException as e:  # noqa: BLE001
         res["machinery"] = {"class": type(e).__name__, "msg": str(e)[:400], "tb": traceback.format_exc()[-1500:]}
     finally:
